@@ -1596,3 +1596,66 @@ Proof.
   intros I. destruct (cell_of s (st_next s)) eqn:E; auto.
   pose proof (live_lt _ _ _ (inv_heap _ _ I) E). lia.
 Qed.
+
+(* O13: process_answer takes the answered query off its connection's list before deciding what
+   to do with it; until then the query is exempt from the timeout-list clause *)
+Lemma conn_drop_query_ok s co c qo :
+  Inv s -> cell_of s co = Some (CConn c) ->
+  let c' := set_c_queries (remove_nat qo (c_queries c)) c in
+  let s' := store_st co (CConn c') s in
+  InvX (Some qo) s' /\ linked s' = linked s /\ cell_of s' co = Some (CConn c')
+  /\ (forall o, o <> co -> cell_of s' o = cell_of s o).
+Proof.
+  intros I Hc c' s'.
+  assert (Hsame : forall o, o <> co -> cell_of s' o = cell_of s o).
+  { intros o Hne. unfold s'. rewrite cell_store. apply Nat.eqb_neq in Hne. rewrite Hne. reflexivity. }
+  assert (Hco : cell_of s' co = Some (CConn c')).
+  { unfold s'. rewrite cell_store, Nat.eqb_refl. reflexivity. }
+  assert (Ell : linked s' = linked s) by reflexivity.
+  assert (Hqs : forall o q, cell_of s o = Some (CQuery q) -> cell_of s' o = Some (CQuery q)).
+  { intros o q H. rewrite Hsame; auto. intros ->. rewrite Hc in H. discriminate. }
+  assert (Ech : chain s' = chain s).
+  { apply chain_same; auto. intros o Ho. unfold qchain.
+    destruct (inv_query _ _ I _ Ho) as [q [H1 _]]. rewrite (Hqs _ _ H1), H1. reflexivity. }
+  assert (Hconn : forall o c1, cell_of s' o = Some (CConn c1) ->
+            exists c0, cell_of s o = Some (CConn c0) /\ c_closed c1 = c_closed c0
+                       /\ (forall y, In y (c_queries c1) -> In y (c_queries c0))
+                       /\ (forall y, In y (c_queries c0) -> y <> qo -> In y (c_queries c1))).
+  { intros o c1 H. destruct (Nat.eq_dec o co) as [->|Hne].
+    - rewrite Hco in H. inversion H; subst. exists c. repeat split; auto.
+      + intros y Hy. simpl in Hy. apply in_remove_nat in Hy. tauto.
+      + intros y Hy Hn. simpl. apply in_remove_nat. auto.
+    - rewrite Hsame in H; auto. exists c1. repeat split; auto. }
+  assert (Hconn' : forall o c0, cell_of s o = Some (CConn c0) ->
+            exists c1, cell_of s' o = Some (CConn c1) /\ c_closed c1 = c_closed c0
+                       /\ (forall y, In y (c_queries c0) -> y <> qo -> In y (c_queries c1))).
+  { intros o c0 H. destruct (Nat.eq_dec o co) as [->|Hne].
+    - rewrite Hc in H. inversion H; subst. exists c'. repeat split; auto.
+      intros y Hy Hn. simpl. apply in_remove_nat. auto.
+    - exists c0. rewrite Hsame; auto. }
+  split; [|split; [exact Ell|split; [exact Hco|exact Hsame]]].
+  constructor.
+  - eapply heap_store; eauto. exact (inv_heap _ _ I).
+  - rewrite Ell. exact (inv_nodup _ _ I).
+  - intros o. rewrite Ell. intros Ho. destruct (inv_query _ _ I _ Ho) as [q [H1 H2]]. exists q. split; auto.
+  - intros qid o H. destruct (inv_byqid _ _ I _ _ H) as [H1 H2]. split; auto. intros q Hq. apply H2.
+    destruct (inv_query _ _ I _ H1) as [q0 [H3 _]]. rewrite (Hqs _ _ H3) in Hq. inversion Hq; subst. exact H3.
+  - intros o H. destruct (inv_bytmo _ _ I _ H) as [H1 [q [co1 [c1 [H2 [H3 [H4 H5]]]]]]]. split; auto.
+    destruct (Hconn' _ _ H4) as [c2 [H6 [_ H7]]]. exists q, co1, c2. repeat split; auto.
+    destruct H5 as [H5|H5]; [discriminate|].
+    destruct (Nat.eq_dec o qo) as [->|Hne]; [left; reflexivity|right; auto].
+  - intros co1 c1 o H1 H2. destruct (Hconn _ _ H1) as [c0 [H3 [_ [H4 _]]]].
+    destruct (inv_connq _ _ I _ _ _ H3 (H4 _ H2)) as [H5 [q [H6 H7]]]. split; auto. exists q. split; auto.
+  - destruct (inv_conns _ _ I) as [H1 H2]. split; auto. intros co1 H. destruct (H2 _ H) as [c0 [H3 H4]].
+    destruct (Hconn' _ _ H3) as [c1 [H5 [H6 _]]]. exists c1. split; auto. congruence.
+  - intros co1 c1 H1 H2. destruct (Hconn _ _ H1) as [c0 [H3 [H4 [H5 _]]]]. rewrite H4 in H2.
+    destruct (inv_closed _ _ I _ _ H3 H2) as [H7 H8]. split; auto.
+    destruct (c_queries c1) as [|y l] eqn:E; auto. exfalso.
+    assert (Hy : In y (c_queries c0)) by (apply H5; left; auto). rewrite H8 in Hy. destruct Hy.
+  - rewrite Ech. destruct (inv_chain _ _ I) as [H1 H2]. split; auto. intros o Ho. rewrite Hsame; auto.
+    intros ->. rewrite (H2 _ Ho) in Hc. discriminate.
+  - intros o h. destruct (Nat.eq_dec o co) as [->|Hne].
+    + rewrite Hco. discriminate.
+    + rewrite Hsame; auto. exact (inv_nohost_cells _ _ I o h).
+  - exact (inv_scripts _ _ I).
+Qed.
